@@ -78,6 +78,45 @@ def half_plus_q_contexts(ctx, followers):
                                          f"(wrong) aliquot", key=f"RX-LANG-CTX|half_plus_q_regex|swallow|{pre}|{nxt}|{bool(tail)}")
 
 
+def scrubbers_stop_at_sentence_end(ctx):
+    """Every spelling of an aliquot is rewritten up to its last letter / digit /
+    symbol: the period (or ';', ',') that ends the element stays in the text
+    for ALL spellings alike.  If the word spelling swallows it ('Northeast
+    Quarter. Lot 1' -> 'NE¼ Lot 1') while the symbol spelling keeps it
+    ('NE/4. Lot 1'), the two spellings of one description parse differently -
+    and the first glues the aliquot to what follows."""
+    defs = ctx.fold.get('tract_preprocess', 'QQ_SCRUBBER_DEFINITIONS')
+    if not isinstance(defs, dict):
+        ctx.undecided('RX-LANG-CTX', 'aliquot scrubbers stop in front of the separator', 'QQ_SCRUBBER_DEFINITIONS does not fold')
+        return
+    byname = {k.name: k for k in defs if isinstance(k, RegexVal)}
+    forms = {
+        'ne_regex': ('Northeast Quarter', 'NE/4', 'NE¼', 'North East One Quarter', 'NE 1/4'),
+        'sw_regex': ('Southwest Quarter', 'SW/4', 'SW¼'),
+        'n2_regex': ('North Half', 'N/2', 'N½', 'N 1/2'),
+        'e2_regex': ('East Half', 'E/2', 'E½'),
+    }
+    n = 0
+    for name, ws in forms.items():
+        rv = byname.get(name)
+        if rv is None:
+            continue
+        L = common.lang(ctx, rv)
+        for w in ws:
+            if L.first_end(w, 0) != len(w):
+                continue            # not a spelling this pattern takes as a whole (decided elsewhere)
+            for sep, tail in (('.', ' Lot 1'), ('.', ' S½SW¼'), (';', ' Lot 1'), (',', ' Lot 1')):
+                txt = w + sep + tail
+                end = L.first_end(txt, 0)
+                n += 1
+                ctx.check(end == len(w), 'RX-LANG-CTX', f"{name} leaves the {sep!r} after {w!r} alone",
+                          detail_bad=f"in {txt!r} the match of {name} ends at {end}, not {len(w)}: the {sep!r} that ends the element is "
+                                     f"swallowed for this spelling but kept for the others ('NE/4.' / 'NE¼.'), so one description "
+                                     f"parses differently depending on how the aliquot is spelled (and 'Quarter. Lot 1' becomes a "
+                                     f"lot division)", key=f"RX-LANG-CTX|{name}|swallow|{w}|{sep}")
+    ctx.floor('spelling x separator cases for the base scrubbers', n, 20)
+
+
 def lookahead_covers_spellings(ctx):
     """The aliquot scrubbers end in the look-ahead `aqwb_lkahead` ("what
     follows is the start of another aliquot, a separator or the end").  Two
@@ -100,6 +139,7 @@ def lookahead_covers_spellings(ctx):
         if not isinstance(pat, str):
             continue
         words = _rx.enumerate_words(_rx.parse(pat, re.I), re.I)
+        words = list(dict.fromkeys(words + [w.lower() for w in words] + [w.upper() for w in words]))   # the patterns ignore case
         miss = [w for w in words if w and not L.matches_at(w + tail, 0)]
         n += 1
         ctx.check(not miss, 'SIB', f"aqwb_lkahead accepts every spelling of {name} as the start of the next aliquot",
@@ -170,6 +210,7 @@ def check(ctx):
     ctx.attempt(common.locate_by_text, ctx.repo.func('tract_preprocess:process_half_plus_q_match'))
     ctx.attempt(_cut_length_from_match)
     ctx.attempt(lookahead_covers_spellings)
+    ctx.attempt(scrubbers_stop_at_sentence_end)
 
 
 def _tables(ctx, base):
